@@ -1735,6 +1735,9 @@ pub unsafe fn abi_entry_light<T: AbiExportable + ?Sized>(flag: AbiProtocol) {
                     let temp;
                     if let Some(err) = err.downcast_ref::<&str>() {
                         msg = err;
+                    } else if let Some(err) = err.downcast_ref::<String>() {
+                        // panic!("..{}..", x) and panic_any(String) carry a String payload
+                        msg = err.as_str();
                     } else {
                         temp = format!("{:?}", err);
                         msg = &temp;
@@ -1838,6 +1841,9 @@ pub unsafe fn abi_entry<T: AbiExportableImplementation>(flag: AbiProtocol) {
                     let temp;
                     if let Some(err) = err.downcast_ref::<&str>() {
                         msg = err;
+                    } else if let Some(err) = err.downcast_ref::<String>() {
+                        // panic!("..{}..", x) and panic_any(String) carry a String payload
+                        msg = err.as_str();
                     } else {
                         temp = format!("{:?}", err);
                         msg = &temp;
